@@ -72,6 +72,8 @@ func c07(e *Env) {
 	}
 	var stalledNode *world.Node // a node that answers nothing for a while (some runs)
 	var stallUntil time.Duration
+	var crashedNode *world.Node // a node that is down for a while (some runs)
+	var crashUntil time.Duration
 	st := make([]*cstate, len(f.clients))
 	slotOf := map[*world.Client]int{}
 	for i := range st {
@@ -215,6 +217,10 @@ func c07(e *Env) {
 			stalledNode.Unstall()
 			stalledNode = nil
 		}
+		if crashedNode != nil && w.Now() >= crashUntil {
+			crashedNode.Restart()
+			crashedNode = nil
+		}
 	}
 	var en []int
 	w.Workload = func() int { en = enabled(); return len(en) }
@@ -264,6 +270,16 @@ func c07(e *Env) {
 			stallUntil = w.Now() + time.Duration(11+c.Choose("c07stalllen", 20))*time.Second
 			w.Logf("node %s: stall begins", stalledNode)
 			e.Res.Stats["probe.c07.node_stalled"]++
+			faultAt = -1
+		}
+		if opsDone == faultAt && crashedNode == nil && len(w.Nodes) > 1 && c.Choose("c07crash?", 3) == 2 {
+			// or: one node is down for a while (connections refused). Sessions created meanwhile
+			// have no connection to it yet; a USE must still be decided by the nodes that are up.
+			crashedNode = w.Nodes[c.Choose("c07crashnode", len(w.Nodes))]
+			crashedNode.Crash()
+			faultsInjected = true
+			crashUntil = w.Now() + time.Duration(8+c.Choose("c07crashlen", 40))*time.Second
+			e.Res.Stats["probe.c07.node_down_for_a_while"]++
 			faultAt = -1
 		}
 		if opsDone == faultAt {
